@@ -15,6 +15,7 @@ import torch
 import z3
 
 from harness.samplers_common import *  # noqa
+from leaspy.exceptions import LeaspyException
 from vcheck.common import Recorder, guarded, tensor_literal, model_value
 
 PROP = "C03"
@@ -32,6 +33,7 @@ META = dict(
 REPLAY_PRELUDE = '''
 import random, itertools, math
 import numpy as np
+import leaspy.exceptions
 import leaspy.samplers.gibbs as G
 from leaspy.samplers import sampler_factory
 from leaspy.variables.dag import VariablesDAG
@@ -51,34 +53,58 @@ def ind_dag():
         "nll_regul_ind_sum_ind": LinkedVariable(NamedInputFunction(lambda nll_regul_v_ind: nll_regul_v_ind, ("nll_regul_v_ind",))),
         "nll_attach": LinkedVariable(NamedInputFunction(lambda nll_attach_ind: nll_attach_ind.sum(), ("nll_attach_ind",)))})
 class Draws:
-    def __init__(self, rng): self.rng, self.n, self.u, self.order = rng, [], [], None
+    # draws come from the solver's counterexample (`given`) as long as it has some, then from the generator
+    def __init__(self, rng, given=None): self.rng, self.n, self.u, self.order, self.given = rng, [], [], None, (given or {})
     def randn(self, *shape, **kw):
         shape = tuple(shape[0]) if len(shape) == 1 and isinstance(shape[0], (tuple, list, torch.Size)) else tuple(shape)
-        z = torch.tensor(np.array(self.rng.standard_normal(shape)), dtype=torch.float64); self.n.append(z); return z
+        g = self.given.get("normals", [])
+        z = torch.tensor(g[len(self.n)], dtype=torch.float64).reshape(shape) if len(self.n) < len(g) else torch.tensor(np.array(self.rng.standard_normal(shape)), dtype=torch.float64)
+        self.n.append(z); return z
     def rand(self, *shape, **kw):
         shape = tuple(shape[0]) if len(shape) == 1 and isinstance(shape[0], (tuple, list, torch.Size)) else tuple(shape)
-        u = torch.tensor(np.array(self.rng.random(shape)), dtype=torch.float64); self.u.append(u); return u
+        g = self.given.get("uniforms", [])
+        u = torch.tensor(g[len(self.u)], dtype=torch.float64).reshape(shape) if len(self.u) < len(g) else torch.tensor(np.array(self.rng.random(shape)), dtype=torch.float64)
+        self.u.append(u); return u
     def shuffle(self, lst):
-        p = list(self.rng.permutation(len(lst))); lst[:] = [lst[i] for i in p]; self.order = list(lst)
+        if self.given.get("order"):
+            want = [tuple(i) for i in self.given["order"]]; lst[:] = sorted(lst, key=lambda i: want.index(tuple(i)) if tuple(i) in want else len(want))
+        else:
+            p = list(self.rng.permutation(len(lst))); lst[:] = [lst[i] for i in p]
+        self.order = list(lst)
+def G_(given, key, default):
+    v = (given or {}).get(key)
+    return default if v is None else torch.tensor(v, dtype=torch.float64).reshape(default.shape)
 '''
 
 
-def _pop_replay(kind, shape):
+def _given(model, v0, o, tinv, std0, d, order=None):
+    """the solver's counterexample as plain numbers (inputs, proposal scales, every draw, the visiting order)"""
+    lit = lambda a: [model_value(model, x) for x in np.asarray(a, dtype=object).reshape(-1)]
+    g = dict(v0=lit(v0.sym), o=lit(o.sym), tinv=lit(tinv.sym)[0], std=lit(std0), normals=[lit(z.sym) for z in d.normals], uniforms=[lit(u.sym) for u in d.uniforms])
+    if order is not None:
+        g["order"] = [list(i) for i in order]
+    return g
+
+
+def _pop_replay(kind, shape, given=None):
     return REPLAY_PRELUDE + f'''
 KIND, SHAPE = {kind!r}, {tuple(shape)!r}
+GIVEN = {given!r}
 bad = None
-for seed in range(40):
-    rng = np.random.default_rng(seed)
-    v0 = torch.tensor(rng.standard_normal(SHAPE), dtype=torch.float64); o = torch.tensor(rng.standard_normal((2,)), dtype=torch.float64)
-    tinv = float(rng.uniform(0.05, 1.0))
+for seed in ([-1] if GIVEN else []) + list(range(40)):
+    given = GIVEN if seed < 0 else None
+    rng = np.random.default_rng(abs(seed))
+    v0 = G_(given, "v0", torch.tensor(rng.standard_normal(SHAPE), dtype=torch.float64)); o = G_(given, "o", torch.tensor(rng.standard_normal((2,)), dtype=torch.float64))
+    tinv = float(G_(given, "tinv", torch.tensor(rng.uniform(0.05, 1.0), dtype=torch.float64)))
     S = State(pop_dag(), auto_fork_type=StateForkType.REF)
     with S.auto_fork(None): S["v"] = v0.clone(); S["o"] = o
     smp = sampler_factory(KIND, PopulationLatentVariable, name="v", shape=SHAPE, scale=torch.ones(SHAPE))
-    smp.std = torch.tensor(rng.uniform(0.2, 1.5, tuple(smp.std.shape)), dtype=torch.float64)
+    smp.std = G_(given, "std", torch.tensor(rng.uniform(0.2, 1.5, tuple(smp.std.shape)), dtype=torch.float64))
     std = smp.std.clone()
-    d = Draws(rng); saved = (torch.randn, torch.rand, G.shuffle)
+    d = Draws(rng, given); saved = (torch.randn, torch.rand, G.shuffle)
     torch.randn, torch.rand, G.shuffle = d.randn, d.rand, d.shuffle
     try: smp.sample(S, temperature_inv=tinv)
+    except leaspy.exceptions.LeaspyException as e: bad = f"seed {{seed}}: sample() raised {{type(e).__name__}}: {{e}}"; break
     finally: torch.randn, torch.rand, G.shuffle = saved
     order = d.order if d.order is not None else list(np.ndindex(*std.shape))
     if len(d.n) != len(order) or len(d.u) != len(order): bad = f"seed {{seed}}: {{len(d.n)}} normal / {{len(d.u)}} uniform draws for {{len(order)}} decisions"; break
@@ -95,21 +121,24 @@ print(bad); sys.exit(1 if bad else 0)
 '''
 
 
-def _ind_replay(n_ind, shape):
+def _ind_replay(n_ind, shape, given=None):
     return REPLAY_PRELUDE + f'''
 N, SHAPE = {n_ind}, {tuple(shape)!r}
+GIVEN = {given!r}
 bad = None
-for seed in range(40):
-    rng = np.random.default_rng(seed)
-    v0 = torch.tensor(rng.standard_normal((N,) + SHAPE), dtype=torch.float64); o = torch.tensor(rng.standard_normal((N, 1)), dtype=torch.float64)
-    tinv = float(rng.uniform(0.05, 1.0))
+for seed in ([-1] if GIVEN else []) + list(range(40)):
+    given = GIVEN if seed < 0 else None
+    rng = np.random.default_rng(abs(seed))
+    v0 = G_(given, "v0", torch.tensor(rng.standard_normal((N,) + SHAPE), dtype=torch.float64)); o = G_(given, "o", torch.tensor(rng.standard_normal((N, 1)), dtype=torch.float64))
+    tinv = float(G_(given, "tinv", torch.tensor(rng.uniform(0.05, 1.0), dtype=torch.float64)))
     S = State(ind_dag(), auto_fork_type=StateForkType.REF)
     with S.auto_fork(None): S["v"] = v0.clone(); S["o"] = o
     smp = sampler_factory("gibbs", IndividualLatentVariable, name="v", shape=SHAPE, n_patients=N, scale=1.0)
-    smp.std = torch.tensor(rng.uniform(0.2, 1.5, (N,)), dtype=torch.float64); std = smp.std.clone()
-    d = Draws(rng); saved = (torch.randn, torch.rand)
+    smp.std = G_(given, "std", torch.tensor(rng.uniform(0.2, 1.5, (N,)), dtype=torch.float64)); std = smp.std.clone()
+    d = Draws(rng, given); saved = (torch.randn, torch.rand)
     torch.randn, torch.rand = d.randn, d.rand
     try: smp.sample(S, temperature_inv=tinv)
+    except leaspy.exceptions.LeaspyException as e: bad = f"seed {{seed}}: sample() raised {{type(e).__name__}}: {{e}}"; break
     finally: torch.randn, torch.rand = saved
     if len(d.n) != 1 or len(d.u) != 1 or tuple(d.u[0].shape) != (N,) or tuple(d.n[0].shape) != (N,) + SHAPE: bad = f"seed {{seed}}: draws {{[tuple(x.shape) for x in d.n]}} {{[tuple(x.shape) for x in d.u]}}"; break
     prop = v0 + std.reshape((N,) + (1,) * len(SHAPE)) * d.n[0]
@@ -145,17 +174,23 @@ def pop_task(kind, shape, prop=PROP):
             smp = make_sampler(kind, shape)
             std0 = smp.std.sym.copy()
             d = Draws()
+            hold.update(S=S, v0=v0, o=o, tinv=tinv, smp=smp, d=d, std0=std0)
             with d:
                 smp.sample(S, temperature_inv=tinv)
-            hold.update(S=S, v0=v0, o=o, tinv=tinv, smp=smp, d=d, std0=std0)
             return "done"
 
         for c, res in st.explore(run, "R"):
             rec.end_path(c)
-            if isinstance(res, Exception):
+            if isinstance(res, Exception) and not isinstance(res, LeaspyException):
                 raise res
             S, v0, o, tinv, smp, d, std0 = (hold[k] for k in ("S", "v0", "o", "tinv", "smp", "d", "std0"))
             order = d.shuffles[0] if d.shuffles else list(np.ndindex(*std0.shape))
+            given = lambda m_, order=order, v0=v0, o=o, tinv=tinv, std0=std0, d=d: _pop_replay(kind, shape, _given(m_, v0, o, tinv, std0, d, order if d.shuffles else None))
+            if isinstance(res, Exception):
+                # the real sampler / State refused on a feasible path of the step (values from the solver, replayed)
+                rec.prove(f"no-exception#{rec.paths}", z3.BoolVal(False), replay=given, key=f"{prop}:exception:{kind}",
+                          what=f"sample() raised {type(res).__name__}: {str(res)[:150]}")
+                continue
             forks = [x for x in c.decisions]
             ok_counts = len(d.normals) == len(order) and len(d.uniforms) == len(order) and len(forks) == len(order)
             rec.obligations += 1
@@ -186,21 +221,21 @@ def pop_task(kind, shape, prop=PROP):
                 A1, R1 = expected_pop_terms(list(prop_v.reshape(-1)), ot)
                 E = u.sym[()] < T.t_exp(T.mk_mul(T.real_val(-1), (R1 - R0) * beta + (A1 - A0)))
                 cond, outcome, how = forks[b]
-                rec.prove(f"decision[{b}]{list(idx)}", E if outcome else z3.Not(E), replay=lambda m_: script, key=f"{prop}:decision:{kind}", timeout_ms=40000,
+                rec.prove(f"decision[{b}]{list(idx)}", E if outcome else z3.Not(E), replay=given, key=f"{prop}:decision:{kind}", timeout_ms=40000,
                           what=f"block {idx}: the decision taken is not `u < exp(-(dR*beta + dA))` for the perturbation std*z of that block only")
                 if outcome:
                     cur = prop_v
             final = st.to_terms(S["v"])
             for idx in np.ndindex(*final.shape):
-                rec.prove(f"final{list(idx)}", final[idx] == cur[idx], replay=lambda m_: script, key=f"{prop}:final:{kind}", what="state after sampling is not the accepted/rejected mixture of the proposals")
+                rec.prove(f"final{list(idx)}", final[idx] == cur[idx], replay=given, key=f"{prop}:final:{kind}", what="state after sampling is not the accepted/rejected mixture of the proposals")
             hist = st.to_terms(smp.acceptation_history[-1])
             accepted = {tuple(idx): forks[b][1] for b, idx in enumerate(order)}
             for idx in np.ndindex(*hist.shape):
-                rec.prove(f"history{list(idx)}", hist[idx] == (1 if accepted[tuple(idx)] else 0), replay=lambda m_: script, key=f"{prop}:history:{kind}", what="acceptance history does not receive the decision")
+                rec.prove(f"history{list(idx)}", hist[idx] == (1 if accepted[tuple(idx)] else 0), replay=given, key=f"{prop}:history:{kind}", what="acceptance history does not receive the decision")
             # later reads are fresh (C02): attachment / regularity re-read equal the functions of the final value
             Af, Rf = expected_pop_terms(list(final.reshape(-1)), ot)
-            rec.prove("fresh:nll_attach", st.to_terms(S["nll_attach"])[()] == Af, replay=lambda m_: script, key=f"{prop}:fresh:{kind}", what="stale attachment after sampling")
-            rec.prove("fresh:nll_regul", st.to_terms(S["nll_regul_v"])[()] == Rf, replay=lambda m_: script, key=f"{prop}:fresh:{kind}", what="stale regularity after sampling")
+            rec.prove("fresh:nll_attach", st.to_terms(S["nll_attach"])[()] == Af, replay=given, key=f"{prop}:fresh:{kind}", what="stale attachment after sampling")
+            rec.prove("fresh:nll_regul", st.to_terms(S["nll_regul_v"])[()] == Rf, replay=given, key=f"{prop}:fresh:{kind}", what="stale regularity after sampling")
             if rec.paths == 1:
                 rec.twin("path")
                 rec.sample({"sampler": kind, "shape": list(shape), "order": [list(i) for i in order], "decisions": [f[1] for f in forks]})
